@@ -180,6 +180,11 @@ pub trait Scenario: Sync + Send {
     fn retain_completed(&self) -> bool {
         false
     }
+    /// deviation budget: how many ticks may be taken although a woken caller has not been
+    /// polled yet (a late executor); 0 = the prompt-executor rule holds without exception
+    fn late_ticks(&self) -> usize {
+        0
+    }
 }
 
 /// Canonical, harness-visible facts about the world.
@@ -287,7 +292,7 @@ pub fn enabled_actions<S: Scenario>(scn: &S, w: &World, x: &S::X, h: &[Action]) 
         }
     }
     // prompt-executor rule: time does not pass while a woken caller is unpolled
-    if scn.ticks_enabled() && !w.any_needs_poll() {
+    if scn.ticks_enabled() && (!w.any_needs_poll() || w.late_ticks < scn.late_ticks()) {
         v.push(Action::Tick);
     }
     for c in scn.ctl_actions(w, x) {
@@ -337,7 +342,10 @@ pub fn apply_action<S: Scenario>(scn: &S, w: &mut World, x: &mut S::X, a: &Actio
         }
         Action::Tick => {
             if w.any_needs_poll() {
-                return Err("Tick not enabled".into());
+                if w.late_ticks >= scn.late_ticks() {
+                    return Err("Tick not enabled".into());
+                }
+                w.late_ticks += 1;
             }
             w.tick();
         }
@@ -391,7 +399,7 @@ pub fn execute<S: Scenario>(scn: &S, h: &[Action], trace: bool, run_epilogue: &d
     // the bounds are deviation budgets consumed along the history: two histories reaching the
     // same world with different budgets left have different futures, so the budgets are state
     let c = Counts::of(h);
-    fp.push_str(&format!("#b{},{},{},{}", c.ticks, c.drops, c.panics, c.ctls));
+    fp.push_str(&format!("#b{},{},{},{},{}", c.ticks, c.drops, c.panics, c.ctls, w.late_ticks));
     let enabled = if divergence.is_none() { enabled_actions(scn, &w, &x, h) } else { vec![] };
     let witnesses = scn.witnesses(&w, &x, h);
     let outcome_sig = w
